@@ -139,3 +139,15 @@ End Facts.
 
 Lemma versions_ok_holds : versions_ok = true.
 Proof. vm_cast_no_check (@eq_refl bool true). Qed.
+
+(* ---- byte-string interface used by the parser model ---- *)
+Fixpoint assocB {A} (k : list N) (l : list (string * A)) : option A :=
+  match l with [] => None | (k', a) :: l' => if bytes_eqb (bytes_of_string k') k then Some a else assocB k l' end.
+(* AutosarVersion::from_str on bytes; returns the version's u32 value *)
+Definition version_of_filename (s : list N) : option N :=
+  match assocB s ver_from_str with Some i => ver_value i | None => None end.
+(* AutosarVersion::<ident> as u32 *)
+Definition version_of_ident (ident : string) : option N := assocS ident ver_enum.
+Definition version_latest : option N := ver_value ver_latest.
+Definition filename_of_version (v : N) : option (list N) :=
+  match from_val v with Some i => option_map bytes_of_string (filename i) | None => None end.
